@@ -167,7 +167,7 @@ PROPS = {
         level_text='Decides equality-vs-ordering consistency structurally and totality + sign laws of the algebra and conversions by abstract interpretation; magnitudes are not decided.',
     ),
     'C18': dict(
-        rules=[r_tables.s18_source_tables, r_tables.s18b_clv_zero_range, r_tables.s18c_validate_boxes, r_tables.s06_ma_dispatch, r_conv.s19b_same_name_wiring,
+        rules=[r_tables.s18_source_tables, r_tables.s18b_clv_zero_range, r_tables.s18c_validate_boxes, r_tables.s18d_sequence_validate, r_tables.s06_ma_dispatch, r_conv.s19b_same_name_wiring,
                lambda ctx: r_absint.a01_constructors(ctx, groups=('parser',), rule_id='A01p', min_entries=4,
                    title='Source::from_str, MA::from_str and the TryFrom conversions reach no panic for any text')],
         feature_sets=_sets(['default']),
@@ -178,7 +178,7 @@ PROPS = {
                      'accessor named G(kind) and returns it unchanged. (S06) MA: from_str maps lowercase(kind) to the kind with the parsed '
                      'period and rejects other names. (S18b) clv\'s zero-range guard returns the documented constant. (S19b) every OHLCV accessor of a derived candle type (HeikinAshi, Renko bricks, ...) '
                      'that shares a name with a field reads that field (or the documented max/min of open and close). (S18c) OHLCV::validate is interpreted abstractly on boxes of candles, its five required accessors standing for '
-                     'any value of the box: a non-positive, NaN or infinite value of any one price, or a negative volume, is rejected whatever the other fields are; unordered boxes are rejected; ordered positive finite boxes with volume >= 0 or NaN are accepted.'),
+                     'any value of the box: a non-positive, NaN or infinite value of any one price, or a negative volume, is rejected whatever the other fields are; unordered boxes are rejected; ordered positive finite boxes with volume >= 0 or NaN are accepted. (S18d) Sequence::validate for values and for candles is `all(is_finite)` / `all(OHLCV::validate)` over the whole of self.as_ref().'),
         not_decided=['numeric identities (tp, hl2, ohlc4, clv, true range), the ordering clause of validate beyond the three disjoint boxes S18c runs, associativity of +: '
                      'statements about float values for all candles, not decided',
                      'str::parse of the numeric period is trusted to be total (std)'],
